@@ -401,6 +401,16 @@ def check_unknown(program, rep):
             if e.sym is not None and e.kind in ('for', 'call', 'local',
                                                 'cond'):
                 texts.append(e.sym.node)
+            # a local bound to the listener set earlier (while the key was
+            # known) names that set object: using it later evaluates no
+            # subscript - only statements that spell the table index it
+            try:
+                raw = norm(e.node.iter if e.kind == 'for' and hasattr(
+                    e.node, 'iter') else e.node)
+            except Exception:
+                raw = None
+            if raw is not None and '_events' not in raw and known == 'stale':
+                continue
             for tn in texts:
                 for sub in ast.walk(tn):
                     if isinstance(sub, ast.Subscript) and dotted(
